@@ -1,14 +1,164 @@
-(** C06 — Closed-position-set analysis (interim file: the soundness proof is
-    in progress; this file pins the machine-checked F2 refutation). *)
-From BB Require Import Base TM Ref InstrsModel CpsModel.
+(** C06 — closed-position-set analysis: a [true] answer is true.
+    Final statements only; proofs in Proofs/CpsData.v (containers) and
+    Proofs/CpsSound.v (concretisation [covered], closure [closed]/[checked],
+    registration invariant, goal tests, early exits).
+    FULL variant of DESIGN.md (no re-check fall-back): the chain
+    model answer -> closed final sets -> every reachable configuration covered
+    is proved for the model itself, for every processing order that enumerates
+    exactly the elements of [seen] ([order_ok]). *)
+From BB Require Import Base TM InstrsModel CpsModel.
+From BB Require Import CpsData CpsSound.
+Open Scope N_scope.
 
-(** F2: the early exit `halt_slots().is_empty()` with the table size taken
-    from the defined keys only *)
-Theorem C06_cps_true_refuted_F2 :
-  exists prog rad n sl,
-    cps_cant_halt order_oldest_first prog rad = Ok true /\ halts_at (to_prog prog) init_config n sl.
+(** ---- the three verdicts ---- *)
+
+(** F2 guard [dims_ok]: needed only for the early exit [halt_slots = []]. *)
+Theorem C06_cps_cant_halt_sound : forall order prog rad,
+  order_ok order -> dims_ok prog -> cps_cant_halt order prog rad = Ok true ->
+  forall n sl, ~ halts_at (to_prog prog) init_config n sl.
+Proof. exact cps_cant_halt_sound. Qed.
+Print Assumptions C06_cps_cant_halt_sound.
+
+Theorem C06_cps_cant_blank_sound : forall order prog rad,
+  order_ok order -> cps_cant_blank order prog rad = Ok true ->
+  forall n, ~ erases_at (to_prog prog) init_config n.
+Proof. exact cps_cant_blank_sound. Qed.
+Print Assumptions C06_cps_cant_blank_sound.
+
+Theorem C06_cps_cant_spin_out_sound : forall order prog rad,
+  order_ok order -> cps_cant_spin_out order prog rad = Ok true ->
+  forall n, ~ spins_out_at (to_prog prog) init_config n.
+Proof. exact cps_cant_spin_out_sound. Qed.
+Print Assumptions C06_cps_cant_spin_out_sound.
+
+(** when the analysis itself answered (no early exit): no guard, and for
+    Blank the stronger "no step ever leaves an all-blank tape" *)
+Theorem C06_cps_run_halt_sound : forall order prog rad,
+  order_ok order -> cps_run order prog rad CpsHalt = Ok true ->
+  forall n sl, ~ halts_at (to_prog prog) init_config n sl.
+Proof. exact cps_run_halt_sound. Qed.
+Print Assumptions C06_cps_run_halt_sound.
+
+Theorem C06_cps_run_blank_sound : forall order prog rad,
+  order_ok order -> cps_run order prog rad CpsBlank = Ok true ->
+  forall n q, ~ blank_after (to_prog prog) init_config n q.
+Proof. exact cps_run_blank_sound. Qed.
+Print Assumptions C06_cps_run_blank_sound.
+
+Theorem C06_cps_run_spinout_sound : forall order prog rad,
+  order_ok order -> cps_run order prog rad CpsSpinout = Ok true ->
+  never_spins_out (to_prog prog) init_config.
+Proof. exact cps_run_spinout_sound. Qed.
+Print Assumptions C06_cps_run_spinout_sound.
+
+(** F2: outside [dims_ok] the early exit is wrong ("0LB" alone) *)
+Theorem C06_cps_true_refuted_F2 : exists prog rad n sl,
+  cps_cant_halt order_oldest_first prog rad = Ok true /\
+  halts_at (to_prog prog) init_config n sl.
 Proof.
   exists [((0,0),(0,false,1))], 3, 1%nat, (1, 0). split; [vm_compute; reflexivity|].
-  unfold halts_at. eexists. eexists. split; [vm_compute; reflexivity|]. split; vm_compute; reflexivity.
+  exists 1, {| zl := []; zc := 0; zr := [0] |}. vm_compute. repeat split; reflexivity.
 Qed.
 Print Assumptions C06_cps_true_refuted_F2.
+
+(** ---- the chain ---- *)
+
+(** B: local soundness of one processed config *)
+Theorem C06_covered_step : forall prog goal n cfgs q z q' z',
+  covered n cfgs (q, z) -> checked prog goal cfgs (alpha n q z) ->
+  tm_step (to_prog prog) (q, z) = Some (q', z') ->
+  covered n cfgs (q', z').
+Proof. exact covered_step. Qed.
+Print Assumptions C06_covered_step.
+
+(** C: a completed sweep re-establishes the registration invariant ... *)
+Theorem C06_sweep_registers : forall order prog goal fuel cfgs cfgs',
+  order_ok order -> cset_ok (c_seen cfgs) ->
+  cps_loop_body order prog goal fuel cfgs = inl cfgs' ->
+  cset_ok (c_seen cfgs') /\ cfgs_le cfgs cfgs' /\ all_registered prog cfgs'.
+Proof. exact sweep_inl. Qed.
+Print Assumptions C06_sweep_registers.
+
+(** ... under which a sweep answering true is a pure closure check *)
+Theorem C06_closed_after_true : forall order prog goal fuel cfgs,
+  order_ok order -> all_registered prog cfgs ->
+  cps_loop_body order prog goal fuel cfgs = inr (Ok true) ->
+  closed prog goal cfgs.
+Proof. exact sweep_true. Qed.
+Print Assumptions C06_closed_after_true.
+
+(** D: every reachable configuration is covered by closed sets *)
+Theorem C06_cps_cant_reach_sound : forall order prog rad goal,
+  order_ok order -> cps_cant_reach order prog rad goal = Ok true ->
+  exists cfgs, cset_ok (c_seen cfgs) /\ closed prog goal cfgs /\
+    forall n c, tm_steps (to_prog prog) n init_config = Some c ->
+                covered (N.to_nat (rad - 1)) cfgs c.
+Proof. exact cps_cant_reach_sound. Qed.
+Print Assumptions C06_cps_cant_reach_sound.
+
+Theorem C06_cps_run_sound : forall order prog rad goal,
+  cps_run order prog rad goal = Ok true ->
+  exists seg, cps_cant_reach order prog seg goal = Ok true.
+Proof. exact cps_run_sound. Qed.
+Print Assumptions C06_cps_run_sound.
+
+(** E: under [dims_ok] the machine never leaves the box of the keys *)
+Theorem C06_reach_in_box : forall p, dims_ok p ->
+  forall n c, tm_steps (to_prog p) n init_config = Some c -> in_box p c.
+Proof. exact reach_in_box. Qed.
+Print Assumptions C06_reach_in_box.
+
+(** ---- A: containers ---- *)
+Theorem C06_ctrie_get_upd : forall (A : Type) (k k2 : list N) f (t : ctrie A),
+  ctrie_get k (ctrie_upd k f t) = Some (f (ctrie_get k t)) /\
+  (k2 <> k -> ctrie_get k2 (ctrie_upd k f t) = ctrie_get k2 t).
+Proof. intros. split; [apply ctrie_get_upd_same|apply ctrie_get_upd_other]. Qed.
+Print Assumptions C06_ctrie_get_upd.
+
+Theorem C06_cset_insert_ok : forall x s,
+  cset_ok s -> cset_ok (cset_insert x s) /\
+  forall c, cset_mem c (cset_insert x s) = true <-> c = x \/ cset_mem c s = true.
+Proof. intros x s H. split; [apply cset_ok_insert; exact H|intro; apply cset_mem_insert]. Qed.
+Print Assumptions C06_cset_insert_ok.
+
+Theorem C06_spans_spec : forall sp s,
+  (forall w col, reg (add_span sp s) w col <-> reg sp w col \/ (w = sp_span s /\ col = sp_last s)) /\
+  (forall colors, get_colors sp s = Ok colors ->
+     Sorted.Sorted N.le colors /\ forall col, In col colors <-> reg sp (sp_span s) col) /\
+  (get_colors sp s = Panic <-> ctrie_get (sp_span s) sp = None).
+Proof.
+  intros. split; [intros; apply reg_add_span|]. split; [apply get_colors_ok|apply get_colors_panic].
+Qed.
+Print Assumptions C06_spans_spec.
+
+(** ---- F: orders, radius ---- *)
+Theorem C06_orders_ok : order_ok order_oldest_first /\ order_ok order_newest_first.
+Proof. split; [exact order_ok_oldest_first|exact order_ok_newest_first]. Qed.
+Print Assumptions C06_orders_ok.
+
+(** (C15) a closed-set proof found with radius bound r is found with every larger bound *)
+Theorem C06_cps_mono : forall order prog r r' goal,
+  cps_run order prog r goal = Ok true -> r <= r' -> cps_run order prog r' goal = Ok true.
+Proof. exact cps_run_mono. Qed.
+Print Assumptions C06_cps_mono.
+
+Theorem C06_cps_cant_mono : forall order prog r r', r <= r' ->
+  (cps_cant_halt order prog r = Ok true -> cps_cant_halt order prog r' = Ok true) /\
+  (cps_cant_blank order prog r = Ok true -> cps_cant_blank order prog r' = Ok true) /\
+  (cps_cant_spin_out order prog r = Ok true -> cps_cant_spin_out order prog r' = Ok true).
+Proof.
+  intros. repeat split; intros H0;
+    [eapply cps_cant_halt_mono|eapply cps_cant_blank_mono|eapply cps_cant_spin_out_mono]; eassumption.
+Qed.
+Print Assumptions C06_cps_cant_mono.
+
+(** non-vacuity: three answers [true] that need a real closure (the slot
+    lists are non-empty, so no early exit), on programs inside [dims_ok] *)
+Example C06_nonvacuous :
+  let h := [((0,0),(1,true,1)); ((1,0),(0,false,1)); ((1,1),(0,false,0))] in   (* 1RB ...  0LB 0LA *)
+  let b := [((0,0),(1,true,1)); ((0,1),(0,false,1)); ((1,0),(1,false,0))] in   (* 1RB 0LB  1LA ... *)
+  halt_slots h = [(0, 1)] /\ dims_ok h /\
+  cps_cant_halt order_oldest_first h 5 = Ok true /\ cps_cant_halt order_newest_first h 5 = Ok true /\
+  zr_shifts h = [(1, false)] /\ cps_cant_spin_out order_oldest_first h 5 = Ok true /\
+  erase_slots b = [(0, 1)] /\ cps_cant_blank order_oldest_first b 5 = Ok true.
+Proof. vm_compute. repeat split; reflexivity. Qed.
